@@ -265,6 +265,9 @@ def _schedules(ctx):
             meta[key] = (fmt, label)
             for s in M.SCHEDULES:
                 tasks.append((reg[fmt], key, s.name))
+            # the same stream with safety_check() asked after every chunk
+            for s in ('giant+queries', 'two-step+queries'):
+                tasks.append((reg[fmt], key, s))
     _insp.SECOND_RUN[0] = True
     try:
         results = _insp.run_matrix(ctx, tasks, imgs)
